@@ -1062,17 +1062,18 @@ def evaluate(ctx, g, obs, record=False):
     if record:
         for (i, j), pm in zip(g.pairs, g.pmeta):
             ctx.case(("pair", json.dumps(g.geos[i], sort_keys=True), json.dumps(g.geos[j], sort_keys=True)), nontrivial=i != j,
-                     sample={"pair_" + pm["cls"]: pm["what"], "a": g.geos[i], "b": g.geos[j]})
+                     sample=None if pm["cls"] == "cross" else {"pair_%s_%s" % (g.geos[i]["t"], pm["cls"]): pm["what"], "a": g.geos[i], "b": g.geos[j]})
             ctx.count("pair_%s_%s_%s" % (g.geos[i]["t"], pm["cls"], pm["what"].split("_")[0] if pm["cls"] == "ident" else pm["what"]))
-        for kc, km in zip(g.keys, g.kmeta):
-            ctx.case(("key", tuple(kc)), nontrivial=True, sample={"key_" + km["mode"]: kc[:], "kwargs": [KWARGS[kc[2]], KWARGS[kc[5]]]})
-            ctx.count("key_" + km["mode"])
         for name in ("area_hist", "swath_hist", "stack_hist"):
             for c in getattr(g, name):
                 muts = [op[0] for op in c["ops"] if op[0] not in ("hash", "eq")]
-                ctx.case((name, json.dumps(c, sort_keys=True)), nontrivial=bool(muts), sample={name: c["ops"]})
+                ctx.case((name, json.dumps(c, sort_keys=True)), nontrivial=bool(muts),
+                         sample={name: c["ops"], "start": g.geos[c["start"]] if "start" in c else [g.geos[i] for i in c["members"]]})
                 ctx.count(name)
                 ctx.traces += 1
+        for kc, km in zip(g.keys, g.kmeta):
+            ctx.case(("key", tuple(kc)), nontrivial=True, sample={"key": km["mode"], "src_tgt_kw": kc[:], "kwargs": [KWARGS[kc[2]], KWARGS[kc[5]]]})
+            ctx.count("key_" + km["mode"])
     texts = build_coq(ctx, g, obs, set())
     res = ctx.coq_eval_many([(n, t) for n, t, _, _ in texts])
     for name, _, kind, its in texts:
